@@ -113,6 +113,10 @@ class Lower:
             if st[0] == 'decl' and len(st[2]) == 1 and st[2][0][0] not in LOCALS and st[2][0][1] is not None and (norm(st[1]).endswith('const') or ('*' not in st[1] and norm(st[1]).startswith('const'))):
                 x, init = st[2][0]           # declared const: the compiler guarantees REST does not assign it
                 rest = stmts[i + 1:]
+                if not any(mc._mentions(init, v) for v in LOCALS) and not mc._mentions(init, 'arg'):
+                    # a name for an expression no assignment of this function can change (a compile-time table, slots_strides)
+                    stmts = stmts[:i] + mc._subst_ids(rest, {x: init})
+                    return self.reuse_dead_local(stmts)
                 for v in ('dispatch', 'vtbl', 'slot', 'stride'):
                     if mc._mentions(init, v) and not mc._mentions(rest, v) and v in self.locals:
                         stmts = stmts[:i] + [('expr', ('assign', '=', ('id', v), init))] + mc._subst_ids(rest, {x: ('id', v)})
@@ -146,6 +150,9 @@ class Lower:
         if k == 'if':
             if not st[1]:
                 self.bad('a run-time if (only if constexpr is in the subset)', st[2])
+            if st[2][0] == 'bin' and st[2][1] == '!=':
+                # if constexpr (a != b) A else B   is   if constexpr (a == b) B else A
+                st = (st[0], st[1], ('bin', '==', st[2][2], st[2][3]), st[4] if st[4] else ('block', []), st[3])
             return '(WIfc %s\n  %s\n  %s)' % (self.c(st[2]), self.branch(st[3]), self.branch(st[4]) if st[4] else 'WSkip')
         if k == 'decl':
             out = []
